@@ -262,7 +262,7 @@ class Checker(metaclass=abc.ABCMeta):
                 else:
                     language_source = 'pathname'
             del path_components, i
-        if language is None and self.path.endswith('.po'):
+        if language is None and os.path.splitext(self.path)[-1] == '.po':
             language, ext = os.path.splitext(os.path.basename(self.path))
             assert ext == '.po'
             try:
